@@ -262,7 +262,8 @@ def asm_cases(version, tab, max_items=14, padding=True):
         by_kind.setdefault(tab.kind(nme), []).append(nme)
     kinds = [k for k in ("none", "jump", "table", "enum", "free") if by_kind.get(k)]
     maxpre = 3 if v >= (3, 6) else 1
-    mags = MAGNITUDES if v >= (3, 6) else [(0, 255), (256, 65535), (65536, 2 ** 24 - 1), (2 ** 24, 2 ** 31 - 1)]
+    # (word code: three prefixes reach 2^32 - 1; CPython's dis reports such operands unsigned up to 3.10, signed from 3.11)
+    mags = (MAGNITUDES + [(2 ** 31, 2 ** 32 - 1)]) if v >= (3, 6) else [(0, 255), (256, 65535), (65536, 2 ** 24 - 1), (2 ** 24, 2 ** 31 - 1)]
 
     @st.composite
     def item(draw):
